@@ -311,6 +311,28 @@ pub fn c07_built_case(ctx: &mut Ctx, tape: &[u8]) -> CaseResult {
     }
     let (size, _, _) = signed_size(&view, &o).map_err(|e| Failure::new("engine/signed-size", e))?;
     ensure!(size <= p.max_tx_size as usize, "built/transaction-too-large", "the signed transaction has {} bytes, max_tx_size is {}; {}", size, p.max_tx_size, describe(&o));
+    // second pass (every other case): the same history under a limit 1..=48 bytes below the size just measured. The
+    // builder has to refuse; if it builds anyway the transaction it returns is larger than the configured maximum.
+    let pick = fp64(tape);
+    if pick & 1 == 1 && size > 60 {
+        let d = 1 + ((pick >> 8) % 48) as usize;
+        let mut f2 = focus;
+        f2.max_tx_size_override = Some((size - d) as u32);
+        if let Some(o2) = scenario::run(tape, f2) {
+            ctx.label("tight-size-limit:second-pass");
+            if let Some(t2) = &o2.tx {
+                let b2 = t2.to_bytes();
+                if let Ok(v2) = TxView::parse(&b2) {
+                    if let Ok((s2, _, _)) = signed_size(&v2, &o2) {
+                        ctx.label("tight-size-limit:built-anyway");
+                        ensure!(s2 <= size - d, "built/transaction-too-large/limit-just-below-its-size", "with max_tx_size = {} (the same history built {} signed bytes under a loose limit) build_tx returns a transaction of {} signed bytes; {}", size - d, size, s2, describe(&o2));
+                    }
+                }
+            } else {
+                ctx.label("tight-size-limit:refused");
+            }
+        }
+    }
     ctx.label(&format!("change:{}", change_layout(&o)));
     if nontrivial {
         ctx.nontrivial(fp64(&bytes));
@@ -694,6 +716,16 @@ pub fn c16_rebuild_case(ctx: &mut Ctx, tape: &[u8]) -> CaseResult {
                 u.sort();
                 u.dedup();
                 ensure!(u.len() == els.len(), format!("rebuild/element-emitted-twice/{}-key{}", part, k), "{} field {} holds {} elements, {} distinct; {}", part, k, els.len(), u.len(), describe(&o));
+            }
+        }
+    }
+    // certificates are an insertion-ordered set: the body lists them in the order of their first insertion
+    if let Ok(d) = cbor::parse_document(&first) {
+        if let Some(n) = d.as_array().and_then(|a| a[0].map_get(4)) {
+            let got: Vec<Vec<u8>> = set_items(n).iter().map(|x| first[x.start..x.end].to_vec()).collect();
+            ensure!(got == o.cert_order, "rebuild/certificates-not-in-first-insertion-order", "emitted {:?}, inserted {:?}; {}", got.iter().map(|c| hex::encode(&c[..c.len().min(8)])).collect::<Vec<_>>(), o.cert_order.iter().map(|c| hex::encode(&c[..c.len().min(8)])).collect::<Vec<_>>(), describe(&o));
+            if got.len() >= 2 {
+                ctx.label("certificates:>=2-in-order");
             }
         }
     }
